@@ -449,6 +449,22 @@ func c06ExprGrid(rng *rand.Rand) []c06Expr {
 	add("ExprShuffleVector", "<4 x i32>", "shufflevector ("+intOf("<2 x i32>")+", "+intOf("<2 x i32>")+", <4 x i32> <i32 0, i32 1, i32 2, i32 3>)")
 	add("ExprShuffleVector", "<1 x i32>", "shufflevector ("+intOf("<2 x i32>")+", <2 x i32> undef, <1 x i32> zeroinitializer)")
 	add("ExprShuffleVector", "<vscale x 4 x i32>", "shufflevector (<vscale x 2 x i32> insertelement (<vscale x 2 x i32> undef, "+intOf("i32")+", i32 0), <vscale x 2 x i32> undef, <vscale x 4 x i32> zeroinitializer)")
+	// the same over element types other than i32 (the mask of a shufflevector is always i32)
+	ptrs2 := "<2 x i32*> <i32* @g, i32* @h>"
+	add("ExprShuffleVector", "<4 x float>", "shufflevector ("+fp("<2 x float>")+", "+fp("<2 x float>")+", <4 x i32> <i32 0, i32 1, i32 2, i32 3>)")
+	add("ExprShuffleVector", "<3 x i8>", "shufflevector ("+intOf("<2 x i8>")+", <2 x i8> undef, <3 x i32> <i32 1, i32 0, i32 undef>)")
+	add("ExprShuffleVector", "<2 x i64>", "shufflevector ("+intOf("<4 x i64>")+", "+intOf("<4 x i64>")+", <2 x i32> <i32 7, i32 0>)")
+	add("ExprShuffleVector", "<1 x i32*>", "shufflevector ("+ptrs2+", <2 x i32*> undef, <1 x i32> zeroinitializer)")
+	add("ExprShuffleVector", "<4 x i32*>", "shufflevector ("+ptrs2+", "+ptrs2+", <4 x i32> <i32 3, i32 2, i32 1, i32 0>)")
+	add("ExprShuffleVector", "<vscale x 4 x double>", "shufflevector (<vscale x 2 x double> zeroinitializer, <vscale x 2 x double> undef, <vscale x 4 x i32> zeroinitializer)")
+	add("ExprShuffleVector", "<vscale x 1 x i8>", "shufflevector (<vscale x 2 x i8> insertelement (<vscale x 2 x i8> undef, "+intOf("i8")+", i32 0), <vscale x 2 x i8> undef, <vscale x 1 x i32> zeroinitializer)")
+	add("ExprExtractElement", "float", "extractelement ("+fp("<2 x float>")+", i32 1)")
+	add("ExprExtractElement", "i32*", "extractelement ("+ptrs2+", i8 0)")
+	add("ExprExtractElement", "i64", "extractelement ("+intOf("<4 x i64>")+", i64 3)")
+	add("ExprInsertElement", "<2 x float>", "insertelement ("+fp("<2 x float>")+", "+fp("float")+", i32 0)")
+	add("ExprInsertElement", "<2 x i32*>", "insertelement ("+ptrs2+", i32* @g, i64 1)")
+	add("ExprInsertElement", "<4 x i8>", "insertelement ("+intOf("<4 x i8>")+", "+intOf("i8")+", i16 2)")
+	add("ExprInsertElement", "<vscale x 2 x double>", "insertelement (<vscale x 2 x double> undef, "+fp("double")+", i32 0)")
 	// select with vector condition
 	add("ExprSelect", "<2 x i32>", "select (<2 x i1> icmp ult ("+intOf("<2 x i32>")+", "+intOf("<2 x i32>")+"), "+intOf("<2 x i32>")+", "+intOf("<2 x i32>")+")")
 	add("ExprSelect", "i32*", "select (i1 icmp eq (i32* @g, i32* @h), i32* @g, i32* @h)")
